@@ -119,11 +119,33 @@ def rule_window(ctx):
     if not (isinstance(e.data["args"][2], Const) and e.data["args"][2].v is None):
       oka = False
       why = "weight is not left to the default selection"
-  # stride == size
-  inner = [x for x in ast.walk(fn) if isinstance(x, ast.For) and isinstance(x.target, ast.Name) and x.target.id == "i" and "range(0, len(a), size)" == ast.unparse(x.iter)]
-  if not inner:
-    oka = False
-    why = why or "windows do not advance by `size` over range(0, len(a), size)"
+  # the windows tile the sample: starts s0 + k*st over range(s0, stop, st) with s0 = 0, st = size, stop >= len(a)
+  from .c10 import apply_floor_lemma, provably_nonneg
+  for e in calls:
+    a_ = as_poly(e.data["args"][0]).as_atom()
+    if a_ is None or a_.kind != "slice":
+      continue
+    base, lo = a_.args[0], a_.args[1]
+    size = as_poly(e.state.env.get("size"))
+    tiled = False
+    for info in b.loops():
+      for vis in info.get("visits", []):
+        it = as_poly(vis["iter"]).as_atom()
+        if it is None or it.kind != "range" or len(it.args) != 3:
+          continue
+        s0, stop, st = it.args
+        if not (lo - (s0 + vis["k"] * st)).is_zero():
+          continue
+        D = stop - sym.mk("len", base)
+        LB, used = apply_floor_lemma(D, set())
+        reach = LB is not None and (LB.is_zero() or provably_nonneg(LB, {x for x in LB.atoms()}))
+        if s0.as_int() == 0 and (st - size).is_zero() and reach:
+          tiled = True
+        else:
+          why = "windows start at %r, advance by %r up to %r: they do not tile all len(a) signatures with stride = size" % (s0, st, stop)
+    if not tiled:
+      oka = False
+      why = why or "window starts are not driven by range(0, >= len(a), size)"
   ctx.record(R, b.where(), "aligned windows a[i:i+size], b[i:i+size], stride = size", oka, why or "identical slices of a and b, consecutive windows cover every signature")
   upd = [e for e in b.events if e.kind == "mutate" and e.data["method"] == "update" and isinstance(e.data["target"], ast.Name) and e.data["target"].id == "guesses"]
   brk = [e for e in b.events if e.kind == "break"]
